@@ -170,6 +170,31 @@ def e2e_row(row):
                 out.append((f"e2e-operand-conversion:{kk}", f"`{row['L']} a {o} {cell['R']} b` converts operands to ({got_l}, {got_r}), the language says ({cell['lt']}, {cell['rt']}) [{tag}]", case2))
             else:
                 out.append(("ok-accept", None, None))
+        # the same expression as a call argument and as a constructor argument: the value handed over has the defined type
+        if cell["ok"] and cell["judged"] and results[False][0] == "ok":
+            variants = [("call-argument", f"function id({T} x) -> {T}\n{{\n  return x;\n}}\nexport function f({row['L']} a, {cell['R']} b) -> {T}\n{{\n  return id(a {o} b);\n}}\n")]
+            if parse_type(T)[1] in ("s", "v"):
+                variants.append(("constructor-argument", f"export function f({row['L']} a, {cell['R']} b) -> {T}\n{{\n  return {T}(a {o} b);\n}}\n"))
+            for vname, src2 in variants:
+                case2 = dict(case, source=src2, position=vname)
+                st, r = common.compile_source(src2, {"optimize": False})
+                if st != "ok":
+                    out.append((f"e2e-rejects-defined-as-{vname}:{kk}", f"compiler refuses `a {o} b` ({row['L']}, {cell['R']}) as a {vname} ({r[:60]})", dict(case2, got=r)))
+                    continue
+                ins = r.IRModule.Functions["f"].Instructions
+                want_cls = LinearIR.CallInstruction if vname == "call-argument" else LinearIR.ConstructPrimitiveInstruction
+                users = [i for i in ins if isinstance(i, want_cls)]
+                if len(users) != 1:
+                    out.append((f"e2e-shape-{vname}:{kk}", f"expected one call / constructor instruction, found {len(users)}", case2))
+                    continue
+                arg = (users[0].Arguments if isinstance(users[0], LinearIR.CallInstruction) else users[0].Values)[0]
+                while isinstance(arg, LinearIR.CastInstruction):
+                    arg = arg.Value
+                got = ir_type_name(arg.Type)
+                if got != cell["res"]:
+                    out.append((f"e2e-result-type-{vname}:{kk}", f"`{row['L']} a {o} {cell['R']} b` as a {vname} is computed as {got}, the language says {cell['res']}", dict(case2, got=got)))
+                else:
+                    out.append(("ok-accept", None, None))
     return out
 
 
